@@ -8,13 +8,17 @@
 (*   rev    R1 maps to the reverse strand (the fragment extends to the LEFT of the cut)           *)
 (*   kind   nla : "ok" read starts with CATG | "mm" one motif base substituted (mmpos, mmbase, in *)
 (*                read orientation) | "lost" first base lost (cycle shift: read starts ATG) |     *)
-(*                "extra" one foreign base xbase precedes CATG (read starts xCAT)                 *)
+(*                "extra" one foreign base xbase precedes CATG (read starts xCAT) |                *)
+(*                "outside" protocol nla_no_overhang (no_overhang=True + reference handle): the   *)
+(*                read starts mmpos (=gap 0..3) bases behind the CATG, which is not in the read   *)
 (*          chic: "trimmed"  the ligated T was removed by the demultiplexer (MX = scCHIC...)      *)
 (*                "untrimmed" the read still starts with the ligated T                            *)
 (*   clip / clip3  soft-clipped bases at the 5' / 3' end of R1 (read orientation), n read length  *)
 (*   r2     "none" | "proper" (opposite strand) | "same" (same strand as R1; chic rejects it)     *)
 (*          | "unmapped" | "intercontig" (mate elsewhere; irrelevant for the site)                *)
 (*   contig name of the contig R1 maps to (part of the dedup key)                                 *)
+(*   radius assignment_radius handed to CHICFragment (0: key carries the coordinate; > 0: the     *)
+(*          key is (strand, contig, cell) and `==` compares the distance)                          *)
 (*   opts   check_motif, allow_cycle_shift, no_cigar (no_umi_cigar_processing), invert_strand     *)
 (*                                                                                               *)
 (* Coordinate convention (taken from the code's own tests/data, not invented here):               *)
@@ -65,12 +69,14 @@ Slice(ref, a, n) == SubSeq(ref, a + 1, a + n)          \* n bases from 0-based c
 UStart(s) == CASE s.kind \in {"ok", "mm", "trimmed"} -> s.p
                [] s.kind = "lost"                    -> s.p + 1
                [] s.kind \in {"extra", "untrimmed"}  -> s.p - 1
+               [] s.kind = "outside"                 -> s.p + 4 + s.mmpos
 (* read bases (read orientation = reference orientation) of a FORWARD scenario *)
 Query(s) == CASE s.kind \in {"ok", "trimmed"} -> Slice(s.ref, s.p, s.n)
               [] s.kind = "mm"        -> [Slice(s.ref, s.p, s.n) EXCEPT ![s.mmpos + 1] = s.mmbase]
               [] s.kind = "lost"      -> Slice(s.ref, s.p + 1, s.n)
               [] s.kind = "extra"     -> <<s.xbase>> \o Slice(s.ref, s.p, s.n - 1)
               [] s.kind = "untrimmed" -> <<"T">> \o Slice(s.ref, s.p, s.n - 1)
+              [] s.kind = "outside"   -> Slice(s.ref, s.p + 4 + s.mmpos, s.n)
 Cigar(cl, m, cr) == (IF cl > 0 THEN << <<4, cl>> >> ELSE <<>>) \o << <<0, m>> >> \o (IF cr > 0 THEN << <<4, cr>> >> ELSE <<>>)
 FwdRead(s) == [rev   |-> FALSE,
                start |-> UStart(s) + s.clip,
@@ -90,11 +96,13 @@ FwdWellFormed(s) ==
     /\ s.clip >= 0 /\ s.clip3 >= 0 /\ s.clip + s.clip3 < s.n /\ s.n >= 4
     /\ UStart(s) >= 0 /\ UStart(s) + s.n <= s.L /\ s.p >= 0 /\ s.p < s.L
     /\ s.proto = "nla" => /\ s.p + 4 <= s.L /\ Slice(s.ref, s.p, 4) = CATG
-                          /\ s.kind \in {"ok", "mm", "lost", "extra"}
+                          /\ s.kind \in {"ok", "mm", "lost", "extra", "outside"}
+                          /\ s.kind = "outside" => s.mmpos \in 0 .. 3 /\ s.p + s.mmpos >= 3   \* scan window inside the contig
+                          /\ s.radius = 0
                           /\ s.kind = "mm" => s.mmpos \in 0 .. 3 /\ s.mmbase \in ReadBase /\ s.mmbase # CATG[s.mmpos + 1]
                           /\ s.kind = "extra" => s.xbase \in Base
                           /\ s.r2 \in {"none", "proper", "unmapped", "intercontig"}
-    /\ s.proto = "chic" => s.kind \in {"trimmed", "untrimmed"} /\ s.r2 \in {"none", "proper", "same", "unmapped", "intercontig"}
+    /\ s.proto = "chic" => s.radius \in {0, 2} /\ s.kind \in {"trimmed", "untrimmed"} /\ s.r2 \in {"none", "proper", "same", "unmapped", "intercontig"}
 WellFormed(s) == s.proto \in {"nla", "chic"} /\ FwdWellFormed(IF s.rev THEN MirrorScn(s) ELSE s)
 
 ---------------------------------------------------------------------------------------------------
@@ -107,16 +115,21 @@ OkSites(s) == IF s.opts.no_cigar /\ s.clip > 0 THEN {TrueSite(s), AlignedAnchorS
 TrueStrand(s) == s.rev # s.opts.invert_strand            \* RS: TRUE = reverse
 (* the statement is silent about non-CATG reads when the motif check is disabled and about same-strand mates *)
 InScope(s) == /\ s.proto = "nla"  => (s.opts.check_motif \/ s.kind = "ok")
+              /\ s.kind = "outside" => (s.opts.check_motif /\ s.clip = 0)   \* no_overhang scans from the ALIGNED read end
               /\ s.proto = "chic" => s.r2 # "same"
-MustAccept(s) == s.proto = "chic" \/ s.kind = "ok" \/ (s.kind = "lost" /\ s.opts.allow_cycle_shift)
+MustAccept(s) == s.proto = "chic" \/ s.kind \in {"ok", "outside"} \/ (s.kind = "lost" /\ s.opts.allow_cycle_shift)
 
-(* o = observed outcome [has_ds, ds, has_rs, rs, qcfail, valid, hash]; verdict = first failing clause or "ok" *)
+(* o = observed outcome [has_ds, ds, has_rs, rs, qcfail, valid, hash, has_loc, loc]; verdict = first failing clause or "ok" *)
+HasPos(h) == "pos" \in DOMAIN h
 AcceptVerdict(name, s, o) ==
     IF ~o.has_ds \/ ~o.valid THEN name \o "_rejected"
     ELSE IF o.ds \notin OkSites(s) THEN name \o "_site"
     ELSE IF ~o.has_rs \/ o.rs # TrueStrand(s) THEN name \o "_strand"
     ELSE IF ~o.hash.valid THEN "Inv_C09_DedupKey_missing"
-    ELSE IF o.hash.pos # o.ds \/ o.hash.sample # s.sample \/ o.hash.chrom # s.contig THEN "Inv_C09_DedupKey_site"
+    ELSE IF o.hash.sample # s.sample \/ o.hash.chrom # s.contig THEN "Inv_C09_DedupKey_site"
+    ELSE IF s.radius = 0 /\ ~HasPos(o.hash) THEN "Inv_C09_DedupKey_site"
+    ELSE IF HasPos(o.hash) /\ o.hash.pos # o.ds THEN "Inv_C09_DedupKey_site"
+    ELSE IF ~o.has_loc \/ o.loc # o.ds THEN "Inv_C09_DedupKey_site_location"        \* get_site_location()
     ELSE "ok"
 RejectVerdict(name, o) == IF o.has_ds \/ o.valid \/ o.hash.valid THEN name ELSE "ok"
 
@@ -142,8 +155,10 @@ MirrorVerdict(s, oa, ob) ==
     ELSE IF oa.has_rs # ob.has_rs THEN "Inv_C09_Mirror_strand"
     ELSE IF oa.has_rs /\ oa.rs = ob.rs THEN "Inv_C09_Mirror_strand"
     ELSE IF oa.hash.valid # ob.hash.valid THEN "Inv_C09_Mirror_dedup"
-    ELSE IF oa.hash.valid /\ ~(/\ ob.hash.pos = MirrorCoord(s.proto, s.L, oa.hash.pos)
-                               /\ ob.hash.strand = ~oa.hash.strand /\ ob.hash.css = ~oa.hash.css
+    ELSE IF oa.hash.valid /\ HasPos(oa.hash) # HasPos(ob.hash) THEN "Inv_C09_Mirror_dedup"
+    ELSE IF oa.hash.valid /\ ~(/\ HasPos(oa.hash) => /\ ob.hash.pos = MirrorCoord(s.proto, s.L, oa.hash.pos)
+                                                      /\ ob.hash.strand = ~oa.hash.strand
+                               /\ ob.hash.css = ~oa.hash.css
                                /\ ob.hash.sample = oa.hash.sample /\ ob.hash.chrom = oa.hash.chrom)
          THEN "Inv_C09_Mirror_dedup"
     ELSE "ok"
@@ -190,6 +205,11 @@ NlaRecognised(r, arm) == CASE arm = "motif_fwd" -> FwdMotif(r) [] arm = "motif_r
 NlaReason(r) == IF FwdMotif(r) = CATG /\ r.rev THEN "found CATG R1 REV exp FWD"
                 ELSE IF RevMotif(r) = CATG /\ ~r.rev THEN "found CATG R1 FWD exp REV" ELSE "no CATG"
 
+(* nlaIII.py:174-196 no_overhang: scan the 7 reference bases outside the ALIGNED 5' end of R1 for the nearest CATG *)
+OvHits(r, ref) == IF r.rev THEN { k \in 0 .. 3 : r["end"] + k + 4 <= Len(ref) /\ Slice(ref, r["end"] + k, 4) = CATG }
+                  ELSE { k \in 0 .. 3 : r.start - 4 - k >= 0 /\ Slice(ref, r.start - 4 - k, 4) = CATG }
+OvPos(r, ref) == IF r.rev THEN r["end"] + MinOf(OvHits(r, ref)) ELSE r.start - MinOf(OvHits(r, ref)) - 4
+
 (* chic.py:125-155 *)
 ChicR1Start(r, o) == LET raw == IF r.rev THEN r["end"] + 1 ELSE r.start - 2 IN
                      IF o.no_cigar THEN raw ELSE IF r.rev THEN raw + ClipEnd(r) ELSE raw - ClipStart(r)
@@ -208,7 +228,7 @@ Blank(r) == [read |-> r, strand_set |-> FALSE, strand |-> FALSE, qcfail |-> FALS
              has_ds |-> FALSE, ds |-> 0, has_rs |-> FALSE, rs |-> FALSE, rz |-> <<>>, rr |-> "",
              has_loc |-> FALSE, loc |-> 0, css |-> FALSE, valid |-> FALSE, hash |-> NoHash]
 Out(f) == [has_ds |-> f.has_ds, ds |-> f.ds, has_rs |-> f.has_rs, rs |-> f.rs, qcfail |-> f.qcfail,
-           valid |-> f.valid, hash |-> f.hash]
+           valid |-> f.valid, hash |-> f.hash, has_loc |-> f.has_loc, loc |-> f.loc]
 
 LeftFlank(k)  == CASE k = 1 -> <<"T","A","G","G","C","A","T","G","C","C">>
                    [] k = 2 -> <<"A","G","T","C","A","T","G","A","G","T">>
@@ -230,9 +250,10 @@ ChicKinds == {[kind |-> k, mmpos |-> 0, mmbase |-> "A", xbase |-> "A"] : k \in {
 NlaOpts  == [check_motif : BOOLEAN, allow_cycle_shift : BOOLEAN, no_cigar : BOOLEAN, invert_strand : BOOLEAN]
 ChicOpts == [check_motif : {TRUE}, allow_cycle_shift : {FALSE}, no_cigar : BOOLEAN, invert_strand : BOOLEAN]
 
-Mk(proto, f, p, rv, k, c, c3, n, r2, o) ==
+MkR(proto, f, p, rv, k, c, c3, n, r2, o, rad) ==
     [proto |-> proto, L |-> 24, ref |-> IF proto = "nla" THEN RefAt(f[1], f[2], p) ELSE ModelRef(f[1], f[2]), p |-> p, rev |-> rv, kind |-> k.kind, mmpos |-> k.mmpos,
-     mmbase |-> k.mmbase, xbase |-> k.xbase, clip |-> c, clip3 |-> c3, n |-> n, r2 |-> r2, opts |-> o, sample |-> "c1", contig |-> "chr1"]
+     mmbase |-> k.mmbase, xbase |-> k.xbase, clip |-> c, clip3 |-> c3, n |-> n, r2 |-> r2, opts |-> o, sample |-> "c1", contig |-> "chr1", radius |-> rad]
+Mk(proto, f, p, rv, k, c, c3, n, r2, o) == MkR(proto, f, p, rv, k, c, c3, n, r2, o, 0)
 (* the bounded scenario space, enumerated by Init (one initial state per well-formed scenario) *)
 ChoosesNla(s) == "nla" \in Protos /\
     \E f \in Flanks, rv \in BOOLEAN, k \in NlaKinds, c \in 0 .. MaxClip, c3 \in Clip3s, n \in ReadLens,
@@ -243,6 +264,13 @@ ChoosesBoundary(s) ==
             s = Mk("nla", f, p, FALSE, k, c, 0, n, "none", o)
     \/ "chic" \in Protos /\ \E f \in Flanks, p \in BoundaryPs, k \in ChicKinds, c \in 0 .. MaxClip, n \in ReadLens, o \in ChicOpts :
             s = Mk("chic", f, p, FALSE, k, c, 0, n, "none", o)
+(* protocol nla_no_overhang (gap 0..3 between CATG and read) and CHIC with an assignment radius: small slices *)
+ChoosesExtra(s) ==
+    \/ "nla" \in Protos /\ \E f \in Flanks, g \in 0 .. 3, c \in {0, 2}, c3 \in Clip3s, n \in ReadLens, r2 \in {"none", "proper"},
+                            o \in {x \in NlaOpts : x.check_motif /\ ~x.allow_cycle_shift} :
+            s = Mk("nla", f, 6, FALSE, [kind |-> "outside", mmpos |-> g, mmbase |-> "A", xbase |-> "A"], c, c3, n, r2, o)
+    \/ "chic" \in Protos /\ \E f \in Flanks, rv \in BOOLEAN, k \in ChicKinds, c \in {0, 1, 6}, n \in ReadLens, r2 \in {"none", "proper"}, o \in ChicOpts :
+            s = MkR("chic", f, 11, rv, k, c, 0, n, r2, o, 2)
 ChoosesChic(s) == "chic" \in Protos /\
     \E f \in Flanks, p \in {11, 12}, rv \in BOOLEAN, k \in ChicKinds, c \in 0 .. MaxClip, c3 \in Clip3s, n \in ReadLens,
        r2 \in {"none", "proper", "same"}, o \in ChicOpts : s = Mk("chic", f, p, rv, k, c, c3, n, r2, o)
@@ -250,7 +278,7 @@ ChoosesChic(s) == "chic" \in Protos /\
 Scn(i) == IF i = 1 THEN scn ELSE MirrorScn(scn)
 Turn(i) == i = 1 \/ pc[1] = "done"
 
-Init == /\ (ChoosesNla(scn) \/ ChoosesChic(scn) \/ ChoosesBoundary(scn))
+Init == /\ (ChoosesNla(scn) \/ ChoosesChic(scn) \/ ChoosesBoundary(scn) \/ ChoosesExtra(scn))
         /\ WellFormed(scn)
         /\ pc = <<"new", "new">>
         /\ frag = <<Blank(DeriveRead(scn)), Blank(DeriveRead(MirrorScn(scn)))>>
@@ -270,17 +298,28 @@ NlaSetSite(i, arm) ==
                                              !.loc = pos, !.css = r.rev, !.rz = NlaRecognised(r, arm)]]
     /\ pc' = [pc EXCEPT ![i] = "sited"]
     /\ UNCHANGED scn
+(* no_overhang arm: site found in the reference / rejection 'no_CATG_in_ref' (no set_site at all: no RS, no anchor) *)
+NlaNoOverhang(i) ==
+    /\ Turn(i) /\ pc[i] = "inited" /\ Scn(i).proto = "nla" /\ Scn(i).kind = "outside"
+    /\ LET r == frag[i].read  o == Scn(i).opts  ref == Scn(i).ref IN
+       IF OvHits(r, ref) # {}
+       THEN frag' = [frag EXCEPT ![i] = [@ EXCEPT !.found = TRUE, !.has_ds = TRUE, !.ds = OvPos(r, ref), !.has_rs = TRUE,
+                                                  !.rs = (r.rev # o.invert_strand), !.strand = r.rev, !.has_loc = TRUE,
+                                                  !.loc = OvPos(r, ref), !.css = r.rev]]
+       ELSE frag' = [frag EXCEPT ![i] = [@ EXCEPT !.qcfail = TRUE, !.rr = "no_CATG_in_ref"]]
+    /\ pc' = [pc EXCEPT ![i] = "sited"]
+    /\ UNCHANGED scn
 NlaAcceptMotif(i) ==
-    /\ Turn(i) /\ pc[i] = "inited" /\ Scn(i).proto = "nla"
+    /\ Turn(i) /\ pc[i] = "inited" /\ Scn(i).proto = "nla" /\ Scn(i).kind # "outside"
     /\ NlaArm(frag[i].read, Scn(i).opts) \in {"motif_fwd", "motif_rev"}
     /\ NlaSetSite(i, NlaArm(frag[i].read, Scn(i).opts))
 NlaAcceptShift(i) ==
-    /\ Turn(i) /\ pc[i] = "inited" /\ Scn(i).proto = "nla"
+    /\ Turn(i) /\ pc[i] = "inited" /\ Scn(i).proto = "nla" /\ Scn(i).kind # "outside"
     /\ NlaArm(frag[i].read, Scn(i).opts) \in {"shift_fwd", "shift_rev"}
     /\ NlaSetSite(i, NlaArm(frag[i].read, Scn(i).opts))
 (* rejection arm: set_rejection_reason(.., set_qcfail=True); set_site(.., valid=False) keeps an anchor but no DS *)
 NlaReject(i) ==
-    /\ Turn(i) /\ pc[i] = "inited" /\ Scn(i).proto = "nla"
+    /\ Turn(i) /\ pc[i] = "inited" /\ Scn(i).proto = "nla" /\ Scn(i).kind # "outside"
     /\ NlaArm(frag[i].read, Scn(i).opts) = "reject"
     /\ LET r == frag[i].read  o == Scn(i).opts IN
        frag' = [frag EXCEPT ![i] = [@ EXCEPT !.found = FALSE, !.qcfail = TRUE, !.rr = NlaReason(r), !.has_rs = TRUE,
@@ -309,13 +348,15 @@ ComputeHash(i) ==
     /\ Turn(i) /\ pc[i] = "sited"
     /\ LET f == frag[i]  v == ~f.qcfail /\ f.found IN
        frag' = [frag EXCEPT ![i].valid = v,
-                            ![i].hash = IF v THEN [valid |-> TRUE, strand |-> f.strand, css |-> f.css, chrom |-> Scn(i).contig,
+                            ![i].hash = IF ~v THEN NoHash
+                                        ELSE IF Scn(i).radius = 0
+                                             THEN [valid |-> TRUE, strand |-> f.strand, css |-> f.css, chrom |-> Scn(i).contig,
                                                    pos |-> f.loc, sample |-> Scn(i).sample]
-                                        ELSE NoHash]
+                                             ELSE [valid |-> TRUE, css |-> f.css, chrom |-> Scn(i).contig, sample |-> Scn(i).sample]]
     /\ pc' = [pc EXCEPT ![i] = "done"]
     /\ UNCHANGED scn
 
-Next == \E i \in {1, 2} : \/ FragInit(i) \/ NlaAcceptMotif(i) \/ NlaAcceptShift(i) \/ NlaReject(i)
+Next == \E i \in {1, 2} : \/ FragInit(i) \/ NlaNoOverhang(i) \/ NlaAcceptMotif(i) \/ NlaAcceptShift(i) \/ NlaReject(i)
                           \/ ChicRejectOrientation(i) \/ ChicSetSite(i) \/ ComputeHash(i)
 Spec == Init /\ [][Next]_vars
 
